@@ -51,10 +51,11 @@ RULE = (
     "choice of the tape). Additionally schedules of small histories are enumerated depth-first with sleep-set "
     "reduction (an operation and a plain-code block of different threads commute): all schedules with any number "
     "of preemptions before operations and at most b preemptions taken immediately after an operation. Quick: 9 fixed "
-    "histories (b=1, <=1500 schedules each) plus 16 Hypothesis-drawn histories with two flush deadlines (b=1, <=800 "
+    "histories (b=1, <=1500 schedules each) plus 16 Hypothesis-drawn histories with two flush deadlines (b=1, <=500 "
     "each). Thorough: the fixed histories with b=1 and b=2, every history of <=4 updates with <=2 flush deadlines "
-    "(with and without one pause/resume pair) with b=0 and every such history of <=3 updates with b=1, over a "
-    "raw+json+quicklogger collection, continuous and subdivided, <=6000 schedules each; counters "
+    "(with and without one pause/resume pair) with b=0 over a raw+json+quicklogger collection, continuous and "
+    "subdivided, every such history of <=3 updates (continuous) / <=2 updates (subdivided) with b=1, <=6000 "
+    "schedules each, plus 64 Hypothesis-drawn histories (b=1, <=3000 each); counters "
     "dfs-histories-complete / dfs-histories-truncated / dfs-schedules). Non-trivial = a run with >=2 completed "
     "writer cycles in which the writer was preempted between two of its synchronisation operations; distinct = "
     "(formatter set, #cycles, per-cycle preemption pattern, pause present, subdivision present, #subdivisions "
@@ -756,12 +757,12 @@ def run(ctx: RunContext) -> int:
             cfg = [{"fmt": f, "types": "ALL", "subdiv": sub} for f in FORMATTERS]
             for h in small_histories(4):
                 work.append((cfg, h, limit, 0))
-            for h in small_histories(3):
+            for h in small_histories(3 if sub == 0 else 2):
                 work.append((cfg, h, limit, 1))
         work.sort(key=lambda w: -(len(w[1]) * (1 + 8 * w[3])))  # expensive trees first, so the shards end together
     slices = [work[i::16] for i in range(16)]
-    n_dfs = ctx.scale(1, 24)
-    res = run_shards(shard, [(derive_seed(ctx.seed, i), n, max_len, max_tape, slices[i], n_dfs, min(limit, 800 if ctx.quick else limit))
+    n_dfs = ctx.scale(1, 4)
+    res = run_shards(shard, [(derive_seed(ctx.seed, i), n, max_len, max_tape, slices[i], n_dfs, 500 if ctx.quick else 3000)
                              for i in range(16)])
     if res.counters.get("dfs-histories-truncated"):
         res.notes.append(f"some schedule trees were cut at their cap ({limit} schedules): the exhaustive sub-domain is the "
